@@ -196,7 +196,8 @@ def gen_typed_ops(shape_name, state, rng):
             key = rng.randint(1, rng.choice((4, 6, 70)))
             if r < 0.6:
                 v = rng.randint(0, 99)
-                ops.append(("set", "%d:%d" % (key, v)))
+                # "setc": an existing entry is written through its child output (falls back to out[key] for a new key)
+                ops.append(("setc" if rng.random() < 0.4 else "set", "%d:%d" % (key, v)))
                 cur[key] = v
             elif r < 0.93:
                 ops.append(("del", str(key)))
